@@ -12,7 +12,8 @@ class C42(Prop):
                dict(pkg="internal/forward", test="TestVerifC42Dst", timeout=600),
                dict(pkg="internal/core", test="TestVerifC42Core", timeout=900)]
     n_quick = 600           # per template driver; + n/6 life-cycle histories on a real forward.Manager,
-                            # + (6 + n/100) publisher and (4 + n/150) on-demand source histories on a real path
+                            # + n/4 + 40 histories on a real staticsources.Handler (4 + n/160 of them wait for retryPause),
+                            # + (6 + n/100) publisher and (8 + n/150) on-demand source histories on a real path
     n_thorough = 60000
     shard = 300
     ready = True
@@ -33,11 +34,20 @@ class C42(Prop):
              "at its position and connects to the substitution of that template with the CURRENT groups (inside the guard: "
              "the single pass), a running source instance was given the substitution with the current groups, every later "
              "start resolves with them, the hook environment is exactly G1..Gn of the current groups; an unchanged "
-             "destination under unchanged groups keeps its handler. The forward theorem is proved for any test ReloadConf "
+             "destination under unchanged groups keeps its handler. The query: every start substitutes exactly the query "
+             "of the request that triggered it (trig_query, read off the history alone: the query of the Start that opened "
+             "the current period between Start and Stop) - after every history of starts with and without a query in any "
+             "order, stops, failures, retries and reloads the handler's query is that one, every instance created in the "
+             "period (first, restarted after a change of groups, retried after a failure) is given the current groups and "
+             "that query, never the query of an earlier period; the rule that decides what Start stores is a parameter, "
+             "the code's rule is the model's, 'an empty query does not overwrite' and 'the first query is kept' are "
+             "refuted with witnesses. The forward theorem is proved for any test ReloadConf "
              "might use to keep a handler provided the test is sound (kept => same configuration and same resolved value); "
              "the code's test is sound, a test over the indices of the old groups only is refuted. Tied to the code by "
              "histories on a real forward.Manager (resolved value from the handler's fields or from the running "
-             "forwarder's own log line, next to a fresh resolveDest oracle) and on a real pathManager + path with real "
+             "forwarder's own log line, next to a fresh resolveDest oracle), on a real staticsources.Handler whose "
+             "instance is a recorder (the ResolvedSource of every instance created, over histories of Start(query) / Stop / "
+             "ReloadMatches / failure / retry) and on a real pathManager + path with real "
              "conf.Load / FindPathConf (what forwarders and source instances send to a TCP listener, the real "
              "ExternalCmdEnv()).",
         note="Trusted: Coq kernel+VM, the in-package drivers. strings.ReplaceAll is modelled (leftmost, non-overlapping) "
@@ -45,7 +55,8 @@ class C42(Prop):
              "Life cycle: the property side reads the current groups / forward list off the history itself; the groups "
              "handed in by a reload are those of the real FindPathConf (that pathManager delivers them is C15's subject and "
              "is exercised here end to end); hook commands that are already running keep the environment of their launch "
-             "(not covered); the retry of a failed source after retryPause (5 s) is modelled but not driven in the quick tier.",
+             "(not covered); the retry of a failed source after retryPause (5 s) is driven on the Handler only (a few histories "
+             "per run, concurrently with the others), not on the real path.",
         technique="Coq proof (templates as item lists; each ReplaceAll step shown to act on whole placeholders by induction; "
                   "decimal-prefix lemma for the descending order; life cycle: invariant by induction over histories, "
                   "parametrised by the keep test) + correspondence by vm_compute")
@@ -60,10 +71,21 @@ class C42(Prop):
             "other field changed, Start / Stop; templates mostly inside the guard with indices up to two beyond the group "
             "count. On the real path: regexp keys built from the name (every subset of segments captured, greedy / lazy / "
             "optional / nested groups, the static key), publisher paths with 1-3 RTSP destinations, on-demand source paths "
-            "with the source stopped or running at the reload. Non-trivial = a reload that changes the groups while a "
-            "destination / the source template stays")
+            "with the source stopped or running at the reload, started by describe or add-reader requests with and "
+            "without a query (classes ...:starts-Q>E / E>Q / Q>Q / E>E, :by-reader). On the real staticsources.Handler "
+            "(classes life:source-handler:<last two starts>[+restart][+retry]; E = request without a query, Q = with a "
+            "query, Q' = another query, Q(same) = the same again): directed corpus first (every order of two and three "
+            "consecutive starts over no query / token=abc / user=x, a restart by new groups inside a period followed by a "
+            "period without query, no regular expression, the placeholder twice, queries that look like placeholders, a "
+            "template without $MTX_QUERY), then seeded random histories of 2-4 periods, each start with no query (40%), "
+            "the previous query again or a query from a pool, reloads (more / fewer / other / swapped / equal groups) "
+            "while running and while stopped, failures with and without the retry; the count of every kind of "
+            "consecutive starts is in the driver summary (source_handler_consecutive_starts). Non-trivial = a reload "
+            "that changes the groups while a destination / the source template stays, or consecutive starts with "
+            "different queries on a template with $MTX_QUERY")
     trusted_base = ["Coq 8.16.1 kernel + VM (vm_compute for cases)", "in-package Go drivers zz_verif_c42_test.go "
-                    "(internal/staticsources, internal/forward, internal/core) and zz_verif_c42life_test.go (internal/forward)",
+                    "(internal/staticsources, internal/forward, internal/core) and zz_verif_c42life_test.go (internal/forward, "
+                    "internal/staticsources: recording instance in place of Handler.instance)",
                     "oracle: real resolveDest on the current template and groups (fresh value next to each held value)",
                     "oracle: conf.FindPathConf / regexp engine for the groups of a name under a configuration key",
                     "model Model/C42_Life.v hand-written (forward.Manager, staticsources.Handler, ExternalCmdEnv, "
